@@ -111,20 +111,22 @@ class NN(AV):
     """A value that is certainly not None but otherwise unknown: a str / bytes / container / callable / class object.
     `func` carries the repo function for callables that could be resolved (bound methods, lambdas, nested defs)."""
 
-    __slots__ = ("kind", "func")
+    __slots__ = ("kind", "func", "env", "recv")
 
-    def __init__(self, kind: str, func: Any = None) -> None:
+    def __init__(self, kind: str, func: Any = None, env: Any = None, recv: Any = None) -> None:
         self.kind = kind
         self.func = func
+        self.env = env  # (State, owner Func) captured at closure creation
+        self.recv = recv  # receiver of a bound method value
 
     def __repr__(self) -> str:
         return f"nn<{self.kind}>" if self.func is None else f"nn<{self.kind}:{self.func.qual}>"
 
     def __eq__(self, o: object) -> bool:
-        return isinstance(o, NN) and self.kind == o.kind and self.func is o.func
+        return isinstance(o, NN) and self.kind == o.kind and self.func is o.func and self.env is o.env
 
     def __hash__(self) -> int:
-        return hash(("nn", self.kind, id(self.func)))
+        return hash(("nn", self.kind, id(self.func), id(self.env)))
 
 
 class Tup(AV):
@@ -530,6 +532,9 @@ class Interp:
         self.on_store: Callable[[ast.Attribute, ast.stmt, AV, State, Func], None] | None = None
         self.on_return: Callable[[ast.Return, AV, State, Func], None] | None = None
         self.hooks_all_depths = False
+        self.follow_callables = False  # inline calls through closure / function values (pattern-builder abstract execution)
+        self.on_callable: Callable[..., None] | None = None
+        self.on_field_write: Callable[..., None] | None = None  # (base value, mangled attr, stored value, state, fn, node) at every depth
         self.track_pc = False  # record the branch decisions of the entry function in state key "\u00a7pc"
         self.track_eq = False  # remember `term == const` facts and reuse them for syntactically equal terms
         self.ranks: dict[str, int] = {}  # order-domain ranks of atoms
@@ -576,6 +581,15 @@ class Interp:
                 return v
             if e.id in ("True", "False"):
                 return Iv(int(e.id == "True"), int(e.id == "True"))
+            owner: Func | None = fn
+            while owner is not None:
+                if e.id in owner.nested:
+                    return NN("callable", owner.nested[e.id], (st, fn) if owner is fn else None)
+                owner = owner.parent
+            if fn.name == "<classbody>" and fn.cls is not None:
+                cm = fn.cls.methods.get(mangle(fn.cls.name, e.id)) or fn.cls.methods.get(e.id)
+                if cm is not None:
+                    return NN("callable", cm)
             if e.id == "NotImplemented":
                 return ConstV("NotImplemented")
             c = M.fold(e, fn.cls, fn.mod)
@@ -676,6 +690,10 @@ class Interp:
             return self._default_for_type(t)
         if isinstance(e, ast.JoinedStr):
             return ConstV("<str>")
+        if isinstance(e, ast.Lambda):
+            lf = M.func_of_node.get(id(e))
+            if lf is not None:
+                return NN("callable", lf, (st, fn))
         t = self.R.type_of(e, self.R.scope(fn))
         return self._default_for_type(t)
 
@@ -790,6 +808,12 @@ class Interp:
                     return self._inline_value(f, [], {}, st, fn, depth, recv, e)
                 if M.is_subclass(c, "IntEnum") and e.attr == "value":
                     return self._default_for_type(tname)
+                if isinstance(base, Obj):
+                    ann = M.find_annot(c, mattr)
+                    if ann is not None:
+                        at = M.ann_type(ann, c.mod)
+                        if at is not None and not (isinstance(at, tuple) and at[0] == "union") and "None" not in unparse(ann):
+                            return self._default_for_type(at)
         return self._default_for_type(self.R.type_of(e, self.R.scope(fn)))
 
     def _binop(self, e: ast.BinOp, a: AV, b: AV, st: State, fn: Func, depth: int) -> AV:
@@ -1123,6 +1147,13 @@ class Interp:
                 return [(Tup([iv_floordiv(x, y), iv_mod(x, y)]), st)]
             if n == "isinstance":
                 return [(BOOL, st)]
+            if n == "setattr" and len(args) == 3 and isinstance(args[1], ConstV) and isinstance(args[1].v, str):
+                if self.on_field_write is not None:
+                    self.on_field_write(args[0], args[1].v, args[2], st, fn, c)
+                k0 = self.key_of(c.args[0], fn) if isinstance(c.args[0], (ast.Name, ast.Attribute)) else None
+                return [(NONE, st.set(f"{k0}.{args[1].v}", args[2]) if k0 is not None else st)]
+            if n == "cast" and len(args) == 2:
+                return [(args[1], st)]
             if n == "bool":
                 return [(BOOL, st)]
             if n == "float" and len(args) == 1:
@@ -1133,6 +1164,16 @@ class Interp:
                 return [(TOP, st)]
             if n == "super":
                 return [(TOP, st)]
+        # call through a callable value (closure, lambda, function passed as an argument)
+        if self.follow_callables and isinstance(fx, (ast.Name, ast.Attribute)):
+            cv = self.ev(fx, st, fn, depth) if isinstance(fx, ast.Name) or isinstance(fx, ast.Attribute) and self.key_of(fx, fn) is not None and st.get(self.key_of(fx, fn) or "") is not None else None
+            if isinstance(cv, NN) and cv.kind == "callable" and cv.func is not None and (isinstance(fx, ast.Name) and st.get(fx.id) is not None or cv.env is not None or isinstance(fx, ast.Attribute) or fn.name == "<classbody>"):
+                if self.on_callable is not None:
+                    self.on_callable(c, cv, args, kws, st, fn, depth)
+                outs_cv = self.inline(cv.func, args, kws, st, fn, depth, cv.recv, c, [a for a in c.args if not isinstance(a, ast.Starred)], {k.arg: k.value for k in c.keywords if k.arg}, env=cv.env)
+                if outs_cv is not None:
+                    return outs_cv
+                return [(self._default_for_type(self.R.ret_type(cv.func)), st)]
         # repo callee
         tg, how = self.R.callees(c, fn, count=False)
         if how == "resolved" and tg and any(t.qual in self.stubs or "*." + t.name in self.stubs for t in tg):
@@ -1254,7 +1295,7 @@ class Interp:
 
     def _check_pre(self, f: Func, c: ast.Call, args: list[AV], kws: dict[str, AV], st: State, fn: Func, depth: int) -> None:
         """Record precondition obligations for a call to f (only for the entry function itself: depth 0)."""
-        if self.on_call is not None and depth == 0:
+        if self.on_call is not None and (depth == 0 or self.hooks_all_depths):
             bound = self._bind(f, args, kws)
             self.on_call(c, f, bound, st, fn)
         if depth != 0:
@@ -1297,7 +1338,7 @@ class Interp:
         return out
 
     def inline(self, f: Func, args: list[AV], kws: dict[str, AV], st: State, fn: Func, depth: int, recv: AV | None, node: ast.AST,
-               arg_exprs: list[ast.expr], kw_exprs: dict[str, ast.expr], want_self: bool = False, recv_key: str | None = None) -> list[tuple[AV, State]] | None:
+               arg_exprs: list[ast.expr], kw_exprs: dict[str, ast.expr], want_self: bool = False, recv_key: str | None = None, env: Any = None) -> list[tuple[AV, State]] | None:
         """Inline f in the caller's context. Returns None if not inlined (too deep / opaque / recursive / too big)."""
         if depth >= self.max_depth or f.qual in self.C.opaque or id(f) in self._inline_stack or isinstance(f.node, ast.Lambda) and False:
             self.opaque_log.append((f.qual, "depth" if depth >= self.max_depth else "recursive" if id(f) in self._inline_stack else "opaque"))
@@ -1341,6 +1382,16 @@ class Interp:
             if q == f.qual and p in init and isinstance(init[p], (Iv, Top)):
                 x = num(init[p])
                 init[p] = Iv(max(x.lo, b[0]), min(x.hi, b[1]), x.prec)
+        if env is not None:
+            est, _eowner = env
+            bound_names = {p.arg for p in f.params}
+            free = {n.id for n in ast.walk(f.node) if isinstance(n, ast.Name) and isinstance(n.ctx, ast.Load)} - bound_names
+            for nm in free:
+                if nm in init:
+                    continue
+                for k2, v2 in est.d.items():
+                    if k2 == nm or k2.startswith(nm + "."):
+                        init[k2] = v2
         sn = f.self_name
         if sn is not None:
             if f.kind == "classmethod":
@@ -1893,6 +1944,9 @@ class Interp:
         k = self.key_of(s.subject, f) if isinstance(s.subject, (ast.Name, ast.Attribute)) else None
         rest = [st]
         exhaustive = False
+        remaining: set[int] | None = None
+        if isinstance(subj, Iv) and subj.bounded and subj.prec and subj.hi - subj.lo <= 64:
+            remaining = set(range(int(subj.lo), int(subj.hi) + 1))
         for case in s.cases:
             pat = case.pattern
             ins = list(rest)
@@ -1900,13 +1954,21 @@ class Interp:
             if all(isinstance(q, ast.MatchValue) for q in alts):
                 pvs = [self.ev(q.value, st, f, depth) for q in alts]
                 if all(isinstance(pv, Iv) and pv.const for pv in pvs) and isinstance(subj, Iv):
-                    hits = [pv for pv in pvs if subj.lo <= pv.lo <= subj.hi]
+                    hits = [pv for pv in pvs if subj.lo <= pv.lo <= subj.hi and (remaining is None or int(pv.lo) in remaining)]
                     if not hits:
                         ins = []
                     elif len(hits) == 1 and k is not None:
                         ins = [x.refine(k, hits[0]) for x in ins]
+                    elif k is not None:
+                        ins = [x.refine(k, Iv(min(h.lo for h in hits), max(h.hi for h in hits), True)) for x in ins]
                     if subj.const and hits:
                         rest = []  # a constant subject matches exactly one arm
+                    if remaining is not None and case.guard is None:
+                        remaining -= {int(pv.lo) for pv in pvs}
+                        if not remaining:
+                            rest = []  # every value of the (small, exact) subject range is taken by an earlier arm
+                        elif k is not None:
+                            rest = [x.refine(k, Iv(min(remaining), max(remaining), True)) for x in rest]
             elif isinstance(pat, ast.MatchAs) and pat.pattern is None and case.guard is None:
                 exhaustive = True
             out += w.block(case.body, ins, ex)
@@ -1975,6 +2037,10 @@ class Interp:
             if isinstance(t, ast.Attribute) and depth == 0:
                 if self.on_store is not None:
                     self.on_store(t, stmt, v, st, f)
+            if isinstance(t, ast.Attribute) and self.on_field_write is not None:
+                bv = self.ev(t.value, st, f, depth)
+                mcls0 = self.M.mangling_class(t) or (f.cls.name if f.cls else None)
+                self.on_field_write(bv, mangle(mcls0, t.attr), v, st, f, stmt)
             tm = None
             if isinstance(v, Iv):
                 val = getattr(stmt, "value", None)
